@@ -22,9 +22,25 @@ def rows(prefix):
     return out
 
 
-for title, pre in (('Round 2', 'R'), ('Round 3', 'T')):
-    print('**%s**\n' % title)
-    print('| id | property | change | what it takes to manifest | caught by the checks as they were | obligation that fails now | check result with the change applied to /repo |')
-    print('|---|---|---|---|---|---|---|')
-    print('\n'.join(rows(pre)))
-    print()
+def tables():
+    o = []
+    for title, pre in (('Round 2', 'R'), ('Round 3', 'T')):
+        o.append('**%s**\n' % title)
+        o.append('| id | property | change | what it takes to manifest | caught by the checks as they were | obligation that fails now | check result with the change applied to /repo |')
+        o.append('|---|---|---|---|---|---|---|')
+        o.extend(rows(pre))
+        o.append('')
+    return '\n'.join(o)
+
+
+if __name__ == '__main__':
+    import sys
+    t = tables()
+    if '--write' in sys.argv:
+        p = os.path.join(V, 'DESIGN.md')
+        s = open(p).read()
+        a = s.index('<!-- SEED_TABLES_BEGIN -->') + len('<!-- SEED_TABLES_BEGIN -->')
+        b = s.index('<!-- SEED_TABLES_END -->')
+        open(p, 'w').write(s[:a] + '\n' + t + '\n' + s[b:])
+    else:
+        print(t)
